@@ -98,15 +98,23 @@ def run(tier):
     for case in cases:
         for routine, tol in (("pflow", 1e-6), ("tds", 1e-3), ("eig", 1e-5)):
             sel = list(cfgs)
+            if routine == "tds":
+                # the honest Newton variant of the simulation (Jacobian rebuilt at every iteration) with every back-end
+                sel = sel + [dict(c, honest=1) for c in cfgs if c["method"] == "NR"]
             if quick:
                 rnd.shuffle(sel)
-                sel = sel[:8]
+                must = [dict(lib=l_, linsolve=0, ipadd=1, method="NR", honest=1) for l_ in ("spsolve", "klu")] if routine == "tds" else []
+                sel = must + sel[:8 - len(must)]
             sel = [dict(c, repeat=(k == 0)) for k, c in enumerate(sel)]
             tasks.append(dict(case=case, routine=routine, configs=sel, tol=tol, tf=0.5,
                               sid="cfg[%s|%s]" % (case.split("/")[0], routine)))
+    itasks = [dict(kind="interleave", case=cases[0], other=("5bus/pjm5bus.json" if k % 2 == 0 else cases[0]), lib=lib,
+                   sid="interleave[%s|%s then %s]" % (lib, cases[0].split("/")[0], "5bus" if k % 2 == 0 else "the same case"))
+              for lib in ("klu", "umfpack", "spsolve") for k in range(2)]
+    tasks += itasks
     for i, sc in enumerate(tasks):
         sc["tid"] = i + 1
-    res2 = run_tasks("vh.solverdrv:config_product", tasks, nproc=NCPU, timeout=1500)
+    res2 = run_tasks("vh.checks.c16:cfg_task", tasks, nproc=NCPU, timeout=1500)
     tr2 = [x["result"] for x in res2 if x["status"] == "ok"]
     v2, tl2 = tracecheck.validate(tr2, "Trace_SolverCache", jobs=2)
     for t in tl2:
@@ -146,6 +154,11 @@ def run(tier):
                "the observed maximum is recorded")
     rep.assume("just-in-time compilation (numba) is not exercised")
     return rep.finish()
+
+
+def cfg_task(sc):
+    from .. import solverdrv
+    return solverdrv.interleave(sc) if sc.get("kind") == "interleave" else solverdrv.config_product(sc)
 
 
 def replay(path):
